@@ -53,10 +53,11 @@ q, t = tiers(250, 60, 20000, 1200)
 plan("C02", "exploration", HIST_RULE.format(kind="proposal", unit="slot", extra="proposer and foreign domains", strict=" (same slot/different block; in sequential histories slots must strictly increase in release order)"), q, t)
 
 q, t = tiers(120, 60, 6000, 1200)
-def c03_layers(runs, kill_runs, power_runs, budget):
-    return [dict(runs=runs, budget_s=budget, params="")] * 12 + [dict(runs=kill_runs, budget_s=budget, params="mode=kill")] * 2 + [dict(runs=power_runs, budget_s=budget, params="mode=power")] * 2
-q["layers"] = c03_layers(120, 64, 12, 60)
-t["layers"] = c03_layers(6000, 3200, 600, 1200)
+def c03_layers(runs, kill_runs, power_runs, full_runs, budget):
+    return ([dict(runs=runs, budget_s=budget, params="")] * 11 + [dict(runs=kill_runs, budget_s=budget, params="mode=kill")] * 2
+            + [dict(runs=power_runs, budget_s=budget, params="mode=power")] * 2 + [dict(runs=full_runs, budget_s=budget, params="mode=diskfull")])
+q["layers"] = c03_layers(120, 64, 12, 24, 60)
+t["layers"] = c03_layers(6000, 3200, 600, 1200, 1200)
 q["require_probes"] = ["crash_exact", "probe_crash_between_approval_and_signing", "sign_seam_checks", "ack_durability_checks", "crash_real_process_kill", "crash_power_loss_images"]
 t["require_probes"] = q["require_probes"] + ["crash_torn", "crash_after-write", "probe_crash_before_store", "probe_crash_between_store_and_approval", "sign_seam_image_checks"]
 plan("C03", "exploration",
@@ -158,14 +159,14 @@ plan("C13", "fault_enumeration",
 def all_matrix_layers(runs, budget, mw=16, extra=""):
     return [dict(runs=runs, budget_s=budget, params="mode=matrix,mw=%d,mW=%d%s" % (k, mw, extra)) for k in range(mw)]
 q, t = tiers(30, 90, 600, 1200)
-q["layers"] = all_matrix_layers(30, 90)
-t["layers"] = all_matrix_layers(600, 1200)
-q["require_complete"] = t["require_complete"] = [("matrix_cases", "matrix_total")]
-q["require_probes"] = t["require_probes"] = ["legit_continuations_ok", "share_ownership_checks", "peer_contribution_replies_checked", "ownership_generations"]
+q["layers"] = all_matrix_layers(30, 90, mw=15) + [dict(runs=50, budget_s=90, params="mode=tls")]
+t["layers"] = all_matrix_layers(600, 1200, mw=15) + [dict(runs=50, budget_s=1200, params="mode=tls")]
+q["require_complete"] = t["require_complete"] = [("matrix_cases", "matrix_total"), ("edge_cases", "edge_total")]
+q["require_probes"] = t["require_probes"] = ["legit_continuations_ok", "share_ownership_checks", "peer_contribution_replies_checked", "ownership_generations", "edge_genuine_peer_served", "edge_non_peer_calls"]
 plan("C16", "exploration",
      "the table caller identity {a peer, a configured peer that is not a participant of the generation, an ordinary client with all permissions, empty name, unknown name, a peer's name in upper case, a peer's name with a suffix} x message "
      "{prepare, execute, contribute (with a contribution that would verify), commit, abort} x session state at the receiving instance {none, prepared, executed, committed, aborted, "
-     "expired (fake clock)} is enumerated completely (210 cases) through the real receiver handlers of a 4-instance cluster (3 participants); the remaining runs are seeded fault-free generations with "
+     "expired (fake clock)} is enumerated completely (210 cases) through the real receiver handlers of a 4-instance cluster (3 participants), a 50-case credential x message table goes over real gRPC/TLS (TLS edge); the remaining runs are seeded fault-free generations with "
      "drawn (n,t) and id sets. distinct = distinct table case or (n,t,id-class); non-trivial = all. Oracle: a non-peer gets an error and no share, and the legitimate protocol run "
      "continues from that state to a committed account on every participant; every contribution the transport carries (request and reply) has share = originator's vector evaluated "
      "at the recipient's id and at no other participant's id.",
